@@ -413,3 +413,116 @@ impl Group for Wire {
         format!("{}{} {}", p[1], if p[3] == "0" { "-cold" } else { "-warm" }, o.split(' ').take(if o.starts_with('H') { 2 } else { 1 }).collect::<Vec<_>>().join(" "))
     }
 }
+
+/// "bytes a..b of the representation that a request without Range would receive": with a negotiated content encoding the
+/// representation is the *encoded* body — on a cold cache, on a warm one, for cached and uncached handlers alike.
+pub struct Repr;
+impl Group for Repr {
+    fn timing_sensitive(&self) -> bool {
+        true
+    }
+    fn name(&self) -> &'static str {
+        "c09.repr"
+    }
+    fn rule(&self) -> &'static str {
+        "a real loopback server, a cached and an uncached handler with a compressible 600-byte text body; one connection: 0-1 plain GETs with `accept-encoding: <gzip|br|zstd|none>`, a ranged GET with the same accept-encoding (cold or warm), a GET without Range (the representation), the ranged GET once more; oracle from the statement: both ranged replies are the slice / 416 / full reply that the statement prescribes for the *representation the GET without Range received* (same content-encoding, content-range total = its length); ranges around the compressed and the identity length; non-trivial = an encoding was negotiated"
+    }
+    fn parallel(&self) -> bool {
+        false
+    }
+    fn compare_with_model(&self, _line: &str) -> bool {
+        false
+    }
+    fn generate(&self, ctx: &Ctx, rng: &mut Rng) -> Vec<String> {
+        let mut v = Vec::new();
+        let ranges = [(0usize, 9usize), (5, 60), (10, 2000), (50, 599), (150, 400), (620, 700)];
+        for enc in ["gzip", "br", "zstd", "none"] {
+            for which in ["c", "u"] {
+                for warm in [0, 1] {
+                    for (a, b) in ranges {
+                        if ctx.mode == Mode::Quick && enc != "gzip" && !rng.chance(1, 3) { continue; }
+                        v.push(format!("c09.repr {which} {enc} {warm} {a} {b}"));
+                    }
+                }
+            }
+        }
+        v
+    }
+    fn run_impl(&self, _ctx: &Ctx, line: &str) -> String {
+        use crate::server::*;
+        use kvarn::prelude::*;
+        let p: Vec<&str> = line.split(' ').collect();
+        let (enc, warm, a, b): (&str, usize, usize, usize) = (p[2], p[3].parse().unwrap(), p[4].parse().unwrap(), p[5].parse().unwrap());
+        let body: Vec<u8> = (0..600).map(|i| b"the quick brown fox jumps over the lazy dog. "[i % 45]).collect();
+        let mut ext = Extensions::empty();
+        let b1 = Bytes::from(body.clone());
+        ext.add_prepare_single("/c", prepare!(_r, _h, _p, _a, move |b1: Bytes| {
+            let mut r = Response::new(b1.clone());
+            r.headers_mut().insert("content-type", HeaderValue::from_static("text/plain"));
+            FatResponse::cache(r)
+        }));
+        let b2 = Bytes::from(body.clone());
+        ext.add_prepare_single("/u", prepare!(_r, _h, _p, _a, move |b2: Bytes| {
+            let mut r = Response::new(b2.clone());
+            r.headers_mut().insert("content-type", HeaderValue::from_static("text/plain"));
+            FatResponse::no_cache(r)
+        }));
+        let mut host = Host::unsecure("localhost", "/nonexistent", ext, host::Options::default());
+        host.limiter.disable();
+        let Some(srv) = TestServer::try_start(HostCollection::builder().insert(host).build()) else { return "inconclusive: server did not start".into() };
+        let Some(stream) = connect_retry(srv.port) else { srv.stop(); return "inconclusive: connect".into() };
+        let mut cl = StrictClient::new(stream);
+        let ae = if enc == "none" { String::new() } else { format!("accept-encoding: {enc}\r\n") };
+        let mut get = |cl: &mut StrictClient, range: Option<(usize, usize)>| -> Result<RawResponse, String> {
+            let r = range.map(|(a, b)| format!("range: bytes={a}-{b}\r\n")).unwrap_or_default();
+            cl.send(format!("GET /{} HTTP/1.1\r\nhost: localhost\r\n{ae}{r}\r\n", p[1]).as_bytes()).map_err(|e| format!("inconclusive: send {e}"))?;
+            cl.read_response(false).map_err(|e| format!("no-response {e:?}"))
+        };
+        let show = |r: &RawResponse| {
+            format!("{} ce={} cr={} body={}", r.status, r.header("content-encoding").map(|v| String::from_utf8_lossy(v).into_owned()).unwrap_or("none".into()),
+                r.header("content-range").map(|v| String::from_utf8_lossy(v).replace(' ', "_")).unwrap_or("none".into()), if r.status == 416 { "-".to_owned() } else { hex(&r.body) })
+        };
+        let mut run = || -> Result<String, String> {
+            for _ in 0..warm { get(&mut cl, None)?; }
+            let r1 = get(&mut cl, Some((a, b)))?;
+            let full = get(&mut cl, None)?;
+            let r2 = get(&mut cl, Some((a, b)))?;
+            Ok(format!("first: {} | full: {} | again: {}", show(&r1), show(&full), show(&r2)))
+        };
+        let out = run().unwrap_or_else(|e| e);
+        srv.stop();
+        out
+    }
+    fn oracle(&self, _ctx: &Ctx, line: &str, out: &str) -> Option<(String, String)> {
+        let p: Vec<&str> = line.split(' ').collect();
+        let key = format!("repr:{line}");
+        if out.starts_with("inconclusive") { return None; }
+        if out.starts_with("no-response") || out == "panic" { return Some((key, out.to_owned())); }
+        let parts: Vec<&str> = out.split(" | ").collect();
+        if parts.len() != 3 { return Some((key, format!("unexpected output {out}"))); }
+        let field = |s: &str, k: &str| s.split(' ').find_map(|t| t.strip_prefix(k)).unwrap_or("").to_owned();
+        let full = parts[1].strip_prefix("full: ")?;
+        if !full.starts_with("200 ") { return Some((key, format!("the GET without Range was answered {full}"))); }
+        let (fce, fbody) = (field(full, "ce="), unhex(&field(full, "body="))?);
+        if p[2] != "none" && fce != p[2] { return Some((key, format!("accept-encoding: {} alone, but the full reply is labelled `{fce}`", p[2]))); }
+        let hv = format!("bytes={}-{}", p[4], p[5]);
+        let (status, slice, cr) = statement_expect(&fbody, hv.as_bytes())?;
+        let expect = if status == 416 { "416".to_owned() } else { format!("{status} ce={fce} cr={} body={}", cr.map(|c| c.replace(' ', "_")).unwrap_or("none".into()), hex(&slice)) };
+        for (name, part) in [("first", parts[0]), ("again", parts[2])] {
+            let got = part.split_once(": ")?.1;
+            let got = if got.starts_with("416 ") { "416" } else { got };
+            if got != expect {
+                let short = |s: &str| if s.len() > 160 { format!("{}…", &s[..160]) } else { s.to_owned() };
+                return Some((key, format!("the representation a request without Range receives has {} bytes ({fce}); `{hv}` ({name}, {}) should be `{}`, got `{}`", fbody.len(), if name == "first" && p[3] == "0" { "cold" } else { "warm" }, short(&expect), short(got))));
+            }
+        }
+        None
+    }
+    fn nontrivial(&self, line: &str, _o: &str) -> bool {
+        line.split(' ').nth(2) != Some("none")
+    }
+    fn classify(&self, line: &str, o: &str) -> String {
+        let p: Vec<&str> = line.split(' ').collect();
+        format!("{} {} {} {}", p[1], p[2], if p[3] == "0" { "cold" } else { "warm" }, o.split(' ').nth(1).unwrap_or(""))
+    }
+}
